@@ -56,9 +56,10 @@ class Selector(metaclass=InternedMC):
             if v.capture in captures:
                 cap = captures[v.capture]
                 for value in cap.values:
-                    match = v.value == value or (
-                        isinstance(v.value, MatchFunction) and v.value.fn(value)
-                    )
+                    if isinstance(v.value, MatchFunction):
+                        match = v.value.fn(value)
+                    else:
+                        match = v.value == value
                     if not match:
                         return False
         return True
@@ -777,11 +778,16 @@ def _resolve(selector, env, cnt):
             real_fn = _dig(fn.__func__)
             selfname = inspect.getfullargspec(real_fn).args[0]
             el = el.clone(name=real_fn)
+            # The receiver must be that very object: compare by identity,
+            # not with ==, and do not require the object to be hashable
+            # (the value is part of the key of the interned Element).
             captures.append(
                 Element(
                     name=selfname,
                     capture=selfname,
-                    value=fn.__self__,
+                    value=MatchFunction(
+                        lambda obj, _self=fn.__self__: obj is _self
+                    ),
                 )
             )
         else:
